@@ -399,3 +399,62 @@ func VHSortAdversary() {
 	}
 	vCover("sort adversary done")
 }
+
+// VHHelpersConc: the helpers are functions of their arguments only, so two goroutines that
+// each work on their own slice (with their own generator) must not influence each other: each
+// result is what the helper gives sequentially, and there is no data race. A helper that keeps
+// scratch state in a package-level variable or a pool shows up here.
+func VHHelpersConc() {
+	n := vParam("NH")
+	var in, out [2][]int
+	var kinds [2]int
+	for g := 0; g < 2; g++ {
+		// concrete, distinct, unsorted values: the goroutines do not interact in a correct
+		// implementation, so symbolic contents would only multiply the two helpers' own paths
+		in[g] = make([]int, n)
+		for i := range in[g] {
+			in[g][i] = 100*g + (i*7+3)%n*10 + i
+		}
+		out[g] = append([]int(nil), in[g]...)
+		if g == 1 && vParam("MIX") == 0 {
+			kinds[g] = kinds[0] // both goroutines run the same helper (scratch state lives inside one helper)
+		} else {
+			kinds[g] = vChoose("helper", 5)
+		}
+	}
+	vSymSourceLimit = 2 * (n + 1)
+	for g := 0; g < 2; g++ {
+		g := g
+		vGo(func() {
+			s := out[g]
+			switch kinds[g] {
+			case 0:
+				var draws []uint64
+				ShuffleRand(s, rand.New(c15src{&draws, n + 1}))
+			case 1:
+				Shuffle(s)
+			case 2:
+				Sort(s)
+			case 3:
+				SortStableFunc(s, func(a, b int) bool { return a < b })
+			case 4:
+				Reverse(s)
+			}
+		})
+	}
+	vAssert(vWait(), "helpers on independent slices both return")
+	for g := 0; g < 2; g++ {
+		c15perm(out[g], in[g], "a helper working on its own slice leaves a permutation of it, whatever another goroutine does with another slice")
+		switch kinds[g] {
+		case 2, 3:
+			for i := 1; i < n; i++ {
+				vAssert(out[g][i-1] <= out[g][i], "Sort on an own slice sorts it, whatever another goroutine does")
+			}
+		case 4:
+			for i := 0; i < n; i++ {
+				vAssert(out[g][i] == in[g][n-1-i], "Reverse on an own slice reverses it, whatever another goroutine does")
+			}
+		}
+	}
+	vCover("helpers conc done")
+}
